@@ -846,7 +846,6 @@ func ExpandACoeff(rho []byte) *[K][L]Poly { return expandACached(rho) }
 // InvMod returns a^-1 mod q.
 func InvMod(a int64) int64 { return powmod(Mod(a), Q-2) }
 
-
 // KeyBoundaries classifies boundary events of key generation:
 // "t-wrap": some coefficient of A*s1 + s2 leaves [0,q) before reduction (needs the reduction to happen AFTER the addition);
 // "p2r-tie": some coefficient of t has low part exactly +2^(d-1) (the rounding tie of Power2Round; t0 = +4096);
